@@ -88,8 +88,37 @@ Proof.
   now rewrite decode_mangle, skip_blank_head.
 Qed.
 
+(* ---- the device field: '#' is escaped too *)
+Lemma mangle_dev_nohash s : contains 35 s = false -> mangle_dev s = mangle s.
+Proof.
+  induction s as [|c s IH]; intros H; [reflexivity|]. rewrite contains_cons in H.
+  apply orb_false_iff in H as [Hc Hs].
+  change (mangle_dev (c :: s)) with (esc_dev c ++ mangle_dev s). change (mangle (c :: s)) with (esc c ++ mangle s).
+  rewrite IH by assumption. unfold esc_dev.
+  destruct (Z.eqb_spec c 35) as [->|_]; [rewrite Z.eqb_refl in Hc; discriminate|reflexivity].
+Qed.
+
+Lemma clean_mangle_dev s : contains 0 s = false -> clean (mangle_dev s) = true.
+Proof.
+  unfold clean. induction s as [|c s IH]; intros H; [reflexivity|].
+  rewrite contains_cons in H. apply orb_false_iff in H as [Hc Hs].
+  change (mangle_dev (c :: s)) with (esc_dev c ++ mangle_dev s). rewrite forallb_app, IH by assumption.
+  rewrite andb_true_r. unfold esc_dev. destruct (Z.eqb_spec c 35) as [->|Hn]; [reflexivity|].
+  assert (G : clean (mangle [c]) = true) by (apply clean_mangle; rewrite contains_cons, Hc; reflexivity).
+  unfold clean, mangle in G. cbn [flat_map] in G. now rewrite app_nil_r in G.
+Qed.
+
+Lemma dev_ok_spec e : wf_ment e = true -> dev_ok e = true ->
+  field_ok (m_dev e) = true /\ contains 35 (m_dev e) = false /\ prefixb [35] (m_dev e) = false.
+Proof.
+  unfold wf_ment, dev_ok. intros Hwf Hd. repeat (apply andb_true_iff in Hwf as [Hwf ?]).
+  apply andb_true_iff in Hd as [Hne Hh]. apply negb_true_iff in Hh. destruct (m_dev e) as [|c d] eqn:E; [discriminate|].
+  split; [exact Hwf|]. split; [exact Hh|]. rewrite contains_cons in Hh. apply orb_false_iff in Hh as [Hc _].
+  cbn [prefixb]. now rewrite Hc.
+Qed.
+
 Definition line_body (e : ment) : bytes :=
-  mangle (m_dev e) ++ 32 :: mangle (m_dir e) ++ 32 :: mangle (m_type e) ++ 32 :: mangle (m_opts e) ++ [32; 48; 32].
+  mangle_dev (m_dev e) ++ 32 :: mangle (m_dir e) ++ 32 :: mangle (m_type e) ++ 32 :: mangle (m_opts e) ++ [32; 48; 32].
 
 Lemma k_mount_line_body e : k_mount_line e = (line_body e ++ [48]) ++ [10].
 Proof.
@@ -129,14 +158,15 @@ Proof.
 Qed.
 
 (* getmntent on one printed line that fits the buffer *)
-Lemma mnt_line_exact e : wf_ment e = true -> short_line e = true -> mnt_line (k_mount_line e) = Some e.
+Lemma mnt_line_exact e : wf_ment e = true -> dev_ok e = true -> short_line e = true ->
+  mnt_line (k_mount_line e) = Some e.
 Proof.
-  intros Hwf Hshort. unfold wf_ment in Hwf. repeat (apply andb_true_iff in Hwf as [Hwf ?]).
-  rename Hwf into Hdev. apply negb_true_iff in H.
-  unfold mnt_line. rewrite mnt_buffer_line by assumption.
+  intros Hwf Hok Hshort. destruct (dev_ok_spec e Hwf Hok) as [Hdev [Hnh H]].
+  unfold wf_ment in Hwf. repeat (apply andb_true_iff in Hwf as [Hwf ?]).
+  unfold mnt_line, mnt_parse. rewrite mnt_buffer_line by assumption.
   assert (Hshape : line_body e ++ [48] =
     mangle (m_dev e) ++ 32 :: mangle (m_dir e) ++ 32 :: mangle (m_type e) ++ 32 :: mangle (m_opts e) ++ 32 :: 48 :: [32; 48]).
-  { unfold line_body. repeat (rewrite <- ?app_assoc; cbn [app]). reflexivity. }
+  { unfold line_body. rewrite mangle_dev_nohash by assumption. repeat (rewrite <- ?app_assoc; cbn [app]). reflexivity. }
   rewrite Hshape.
   destruct (mangle_head (m_dev e) Hdev) as [c1 [r1 [E1 [B1 P1]]]].
   assert (Hskip : forall x, skip_blank (mangle (m_dev e) ++ x) = mangle (m_dev e) ++ x).
@@ -148,13 +178,16 @@ Qed.
 
 Lemma line_body_no_nl e : wf_ment e = true -> contains 10 (line_body e ++ [48]) = false /\ contains 0 (k_mount_line e) = false.
 Proof.
-  intros Hwf. unfold wf_ment in Hwf. repeat (apply andb_true_iff in Hwf as [Hwf ?]).
+  intros Hwf. unfold wf_ment in Hwf. repeat (apply andb_true_iff in Hwf as [Hwf ?]). apply negb_true_iff in Hwf.
   assert (C : forall s b, field_ok s = true -> cleanb b = false -> contains b (mangle s) = false).
   { intros s b Hs Hb. apply clean_contains; [exact Hb|]. apply clean_mangle, field_ok_nonul, Hs. }
+  assert (D : forall b, cleanb b = false -> contains b (mangle_dev (m_dev e)) = false).
+  { intros b Hb. apply clean_contains; [exact Hb|]. now apply clean_mangle_dev. }
   split.
-  - unfold line_body. repeat (rewrite ?contains_app, ?contains_cons). rewrite !C by (auto; reflexivity). reflexivity.
-  - rewrite k_mount_line_body. unfold line_body. repeat (rewrite ?contains_app, ?contains_cons).
+  - unfold line_body. repeat (rewrite ?contains_app, ?contains_cons). rewrite D by reflexivity.
     rewrite !C by (auto; reflexivity). reflexivity.
+  - rewrite k_mount_line_body. unfold line_body. repeat (rewrite ?contains_app, ?contains_cons).
+    rewrite D by reflexivity. rewrite !C by (auto; reflexivity). reflexivity.
 Qed.
 
 Lemma contains_concat b (ls : list bytes) :
@@ -173,18 +206,18 @@ Qed.
 
 (* every mounts file printed from well-formed entries whose lines fit glibc's buffer *)
 Lemma getmntent_exact es :
-  forallb wf_ment es = true -> forallb short_line es = true -> getmntent_all (k_mounts es) = Val es.
+  forallb wf_ment es = true -> forallb dev_ok es = true -> forallb short_line es = true ->
+  getmntent_all (k_mounts es) = Val es.
 Proof.
-  intros Hwf Hs. unfold getmntent_all.
+  intros Hwf Hd Hs. unfold getmntent_all.
   assert (H0 : contains 0 (k_mounts es) = false).
   { unfold k_mounts. apply contains_concat. apply Forall_forall. intros l Hl.
     apply in_map_iff in Hl as [e [<- He]]. apply line_body_no_nl. rewrite forallb_forall in Hwf. auto. }
-  rewrite H0, lines_of_mounts by assumption. f_equal.
+  rewrite H0, lines_of_mounts by assumption. f_equal. clear H0.
   induction es as [|e es IH]; [reflexivity|].
-  cbn [forallb] in Hwf, Hs. apply andb_true_iff in Hwf as [He Hes]. apply andb_true_iff in Hs as [Se Ses].
-  cbn [map filter_some]. rewrite mnt_line_exact by assumption. cbn [filter_some]. f_equal.
-  apply IH; auto. unfold k_mounts. apply contains_concat. apply Forall_forall. intros l Hl.
-  apply in_map_iff in Hl as [e' [<- He']]. apply line_body_no_nl. rewrite forallb_forall in Hes. auto.
+  cbn [forallb] in Hwf, Hs, Hd. apply andb_true_iff in Hwf as [He Hes]. apply andb_true_iff in Hs as [Se Ses].
+  apply andb_true_iff in Hd as [De Des].
+  cbn [map filter_some]. rewrite mnt_line_exact by assumption. cbn [filter_some]. f_equal. now apply IH.
 Qed.
 
 Lemma c_disk_partitions_ok fixed es :
@@ -219,22 +252,22 @@ Qed.
 
 (* cext.disk_partitions + loop, all = True (no /proc/filesystems involved) *)
 Lemma disk_partitions_gen_all fixed fsb es :
-  forallb wf_ment es = true -> forallb short_line es = true -> forallb plain_dev es = true ->
+  forallb wf_ment es = true -> forallb dev_ok es = true -> forallb short_line es = true -> forallb plain_dev es = true ->
   (fixed = true \/ forallb utf8_ok es = true) ->
   disk_partitions_gen fixed true fsb (k_mounts es) = Val (spec_partitions true [] es).
 Proof.
-  intros Hwf Hs Hp Hu. unfold disk_partitions_gen. cbn [obind].
+  intros Hwf Hd Hs Hp Hu. unfold disk_partitions_gen. cbn [obind].
   rewrite getmntent_exact by assumption. cbn [obind]. rewrite c_disk_partitions_ok by assumption. cbn [obind].
   apply partitions_loop_exact; [|assumption]. intros t. reflexivity.
 Qed.
 
 Lemma disk_partitions_all fsb es :
-  forallb wf_ment es = true -> forallb short_line es = true -> forallb plain_dev es = true ->
+  forallb wf_ment es = true -> forallb dev_ok es = true -> forallb short_line es = true -> forallb plain_dev es = true ->
   disk_partitions true fsb (k_mounts es) = Val (spec_partitions true [] es).
 Proof. intros. apply disk_partitions_gen_all; auto. Qed.
 
 Lemma disk_partitions_legacy_all fsb es :
-  forallb wf_ment es = true -> forallb short_line es = true -> forallb plain_dev es = true ->
+  forallb wf_ment es = true -> forallb dev_ok es = true -> forallb short_line es = true -> forallb plain_dev es = true ->
   forallb utf8_ok es = true ->
   disk_partitions_legacy true fsb (k_mounts es) = Val (spec_partitions true [] es).
 Proof. intros. apply disk_partitions_gen_all; auto. Qed.
@@ -248,7 +281,7 @@ Definition ment_plain : ment :=
 
 (* known finding: a line over 4095 bytes comes back cut *)
 Lemma mounts_longline_refuted : exists es,
-  forallb wf_ment es = true /\ forallb plain_dev es = true /\ forallb utf8_ok es = true /\
+  forallb wf_ment es = true /\ forallb dev_ok es = true /\ forallb plain_dev es = true /\ forallb utf8_ok es = true /\
   exists rows, disk_partitions true [] (k_mounts es) = Val rows /\ map m_type rows = [[]].
 Proof.
   exists [ment_long]. repeat split; try (vm_compute; reflexivity).
@@ -257,7 +290,7 @@ Qed.
 
 (* known finding: one non-UTF-8 byte in the options makes the whole call fail *)
 Lemma mounts_legacy_nonutf8_refuted : exists es,
-  forallb wf_ment es = true /\ forallb plain_dev es = true /\ forallb short_line es = true /\
+  forallb wf_ment es = true /\ forallb dev_ok es = true /\ forallb plain_dev es = true /\ forallb short_line es = true /\
   disk_partitions_legacy true [] (k_mounts es) = Exc UnicodeError.
 Proof. exists [ment_nonutf8]. repeat split; vm_compute; reflexivity. Qed.
 
@@ -266,6 +299,244 @@ Lemma mounts_nonutf8_ok : disk_partitions true [] (k_mounts [ment_nonutf8]) = Va
 Proof. vm_compute. reflexivity. Qed.
 
 Example mounts_example :
-  forallb wf_ment [ment_plain] = true /\ forallb short_line [ment_plain] = true /\
+  forallb wf_ment [ment_plain] = true /\ forallb dev_ok [ment_plain] = true /\ forallb short_line [ment_plain] = true /\
   forallb plain_dev [ment_plain] = true /\ forallb utf8_ok [ment_plain] = true.
 Proof. vm_compute. auto. Qed.
+
+(* ================================================================ /proc/filesystems *)
+Lemma name_ok_no_ws name : forallb name_byte_ok name = true -> no_ws name = true.
+Proof.
+  unfold no_ws. induction name as [|c name IH]; intros H; [reflexivity|].
+  cbn [forallb] in *. apply andb_true_iff in H as [Hc Hn]. rewrite IH by assumption. rewrite andb_true_r.
+  unfold name_byte_ok in Hc. apply andb_true_iff in Hc as [H1 H2]. apply Z.leb_le in H1, H2.
+  unfold is_ws. destruct (Z.eqb_spec c 32); [lia|]. destruct (Z.leb_spec 9 c); destruct (Z.leb_spec c 13); cbn; try reflexivity; lia.
+Qed.
+
+Lemma name_ok_bytes name : forallb name_byte_ok name = true -> forallb fs_byte_ok name = true /\ contains 9 name = false /\ contains 10 name = false.
+Proof.
+  induction name as [|c name IH]; intros H; [auto|].
+  cbn [forallb] in *. apply andb_true_iff in H as [Hc Hn]. destruct (IH Hn) as [I1 [I2 I3]].
+  unfold name_byte_ok in Hc. apply andb_true_iff in Hc as [H1 H2]. apply Z.leb_le in H1, H2.
+  rewrite !contains_cons, I1, I2, I3. unfold fs_byte_ok.
+  destruct (Z.eqb_spec 9 c); [lia|]. destruct (Z.eqb_spec 10 c); [lia|].
+  destruct (Z.leb_spec 32 c); [|lia]. destruct (Z.leb_spec c 126); [|lia].
+  repeat split; cbn; try reflexivity. rewrite !orb_true_r. reflexivity.
+Qed.
+
+Lemma wf_fs_spec f : wf_fs f = true ->
+  fs_name f <> [] /\ forallb name_byte_ok (fs_name f) = true /\ prefixb nodev (fs_name f) = false.
+Proof.
+  unfold wf_fs. intros H. apply andb_true_iff in H as [H H3]. apply andb_true_iff in H as [H1 H2].
+  apply negb_true_iff in H3. split; [destruct (fs_name f); [discriminate|congruence]|]. auto.
+Qed.
+
+(* the stripped line as _pslinux sees it *)
+Lemma strip_fs_line f : wf_fs f = true ->
+  strip (k_fs_line f) = (if fs_nodev f then nodev ++ [9] else []) ++ fs_name f.
+Proof.
+  intros Hwf. destruct (wf_fs_spec f Hwf) as [Hne [Hok _]]. pose proof (name_ok_no_ws _ Hok) as Hnw.
+  unfold k_fs_line, strip. destruct (fs_name f) as [|c name] eqn:En; [congruence|].
+  assert (Hc : is_ws c = false).
+  { cbn [no_ws forallb] in Hnw. apply andb_true_iff in Hnw as [Hc _]. now apply negb_true_iff in Hc. }
+  destruct (fs_nodev f); cbv iota.
+  - change (lstrip (bs "nodev" ++ 9 :: (c :: name) ++ [10])) with (bs "nodev" ++ 9 :: (c :: name) ++ [10]).
+    change (bs "nodev" ++ 9 :: (c :: name) ++ [10]) with ((nodev ++ [9]) ++ (c :: name) ++ [10]).
+    rewrite app_assoc, rstrip_snoc. change (is_ws 10) with true. cbv iota.
+    apply rstrip_no_ws_tail; [discriminate|exact Hnw].
+  - cbn [app]. change (lstrip (9 :: c :: name ++ [10])) with (lstrip (c :: name ++ [10])).
+    rewrite lstrip_nows by exact Hc.
+    change (c :: name ++ [10]) with ((c :: name) ++ [10]). rewrite rstrip_snoc. change (is_ws 10) with true. cbv iota.
+    apply (rstrip_no_ws_tail [] (c :: name)); [discriminate|exact Hnw].
+Qed.
+
+(* one line of the kernel's list moves the accumulated set as the property says *)
+Lemma fstypes_step f lines acc : wf_fs f = true ->
+  fstypes_of_lines (k_fs_line f :: lines) acc =
+  fstypes_of_lines lines (if negb (fs_nodev f) || beqb (fs_name f) (bs "zfs") then fs_name f :: acc else acc).
+Proof.
+  intros Hwf. destruct (wf_fs_spec f Hwf) as [Hne [Hok Hnp]]. pose proof (name_ok_no_ws _ Hok) as Hnw.
+  destruct (name_ok_bytes _ Hok) as [_ [H9 _]].
+  cbn [fstypes_of_lines]. rewrite strip_fs_line by assumption. destruct (fs_nodev f); cbn [negb orb app].
+  - rewrite <- app_assoc. rewrite prefixb_app. cbn [negb].
+    change ((nodev ++ [9]) ++ fs_name f) with (nodev ++ 9 :: fs_name f) || idtac.
+    cbn [app]. rewrite split_on_app by reflexivity. rewrite split_on_nosep by exact H9.
+    cbn [nth_err_idx nth_error obind].
+    destruct (beqb (fs_name f) (bs "zfs")) eqn:Ez; [|reflexivity].
+    apply beqb_eq in Ez. now rewrite Ez.
+  - rewrite Hnp. cbn [negb]. now rewrite strip_no_ws.
+Qed.
+
+Lemma fstypes_of_printed : forall fs acc, forallb wf_fs fs = true ->
+  exists types, fstypes_of_lines (map k_fs_line fs) acc = Val types /\
+                forall t, mem_bytes t types = mem_bytes t acc || disk_backed fs t.
+Proof.
+  induction fs as [|f fs IH]; intros acc H.
+  - exists acc. split; [reflexivity|]. intros t. cbn. now rewrite orb_false_r.
+  - cbn [forallb] in H. apply andb_true_iff in H as [Hf Hfs]. cbn [map]. rewrite fstypes_step by assumption.
+    destruct (IH (if negb (fs_nodev f) || beqb (fs_name f) (bs "zfs") then fs_name f :: acc else acc) Hfs) as [types [E M]].
+    exists types. split; [exact E|]. intros t. rewrite M. unfold disk_backed. cbn [existsb].
+    destruct (negb (fs_nodev f) || beqb (fs_name f) (bs "zfs")); cbn [mem_bytes existsb].
+    + rewrite andb_true_r. fold (mem_bytes t acc). rewrite (orb_comm (beqb t (fs_name f))), <- orb_assoc. reflexivity.
+    + rewrite andb_false_r. reflexivity.
+Qed.
+
+Lemma lines_of_filesystems fs : forallb wf_fs fs = true ->
+  lines_keep (k_filesystems fs) = map k_fs_line fs /\ forallb fs_byte_ok (k_filesystems fs) = true.
+Proof.
+  unfold k_filesystems. induction fs as [|f fs IH]; intros H; [auto|].
+  cbn [forallb] in H. apply andb_true_iff in H as [Hf Hfs]. destruct (IH Hfs) as [I1 I2].
+  destruct (wf_fs_spec f Hf) as [_ [Hok _]]. destruct (name_ok_bytes _ Hok) as [B1 [_ B10]].
+  cbn [map concat]. unfold k_fs_line at 1 3.
+  split.
+  - replace (((if fs_nodev f then bs "nodev" else []) ++ 9 :: fs_name f ++ [10]) ++ concat (map k_fs_line fs))
+      with (((if fs_nodev f then bs "nodev" else []) ++ 9 :: fs_name f) ++ 10 :: concat (map k_fs_line fs))
+      by (repeat (rewrite <- ?app_assoc; cbn [app]); reflexivity).
+    rewrite lines_keep_line.
+    + rewrite I1. f_equal. unfold k_fs_line. repeat (rewrite <- ?app_assoc; cbn [app]). reflexivity.
+    + rewrite contains_app, contains_cons, B10. destruct (fs_nodev f); reflexivity.
+  - rewrite forallb_app, I2, andb_true_r. unfold k_fs_line. rewrite forallb_app. cbn [forallb]. rewrite forallb_app, B1. destruct (fs_nodev f); reflexivity.
+Qed.
+
+(* for every printed /proc/filesystems: the set psutil builds is exactly the disk-backed types *)
+Lemma read_fstypes_exact fs : forallb wf_fs fs = true ->
+  exists types, read_fstypes (k_filesystems fs) = Val types /\ forall t, mem_bytes t types = disk_backed fs t.
+Proof.
+  intros H. unfold read_fstypes. destruct (lines_of_filesystems fs H) as [L B]. rewrite B, L.
+  destruct (fstypes_of_printed fs [] H) as [types [E M]]. exists types. split; [exact E|]. intros t. now rewrite M.
+Qed.
+
+Lemma spec_partitions_all_any fs fs' es : spec_partitions true fs es = spec_partitions true fs' es.
+Proof. reflexivity. Qed.
+
+(* disk_partitions(all) end to end, for every printed /proc/filesystems and every mounts table *)
+Lemma disk_partitions_gen_exact fixed all fs es :
+  forallb wf_fs fs = true -> forallb wf_ment es = true -> forallb dev_ok es = true ->
+  forallb short_line es = true -> forallb plain_dev es = true ->
+  (fixed = true \/ forallb utf8_ok es = true) ->
+  disk_partitions_gen fixed all (k_filesystems fs) (k_mounts es) = Val (spec_partitions all fs es).
+Proof.
+  intros Hfs Hwf Hd Hs Hp Hu. destruct all.
+  - rewrite (spec_partitions_all_any fs []). now apply disk_partitions_gen_all.
+  - unfold disk_partitions_gen. destruct (read_fstypes_exact fs Hfs) as [types [-> M]]. cbn [obind].
+    rewrite getmntent_exact by assumption. cbn [obind]. rewrite c_disk_partitions_ok by assumption. cbn [obind].
+    now apply partitions_loop_exact.
+Qed.
+
+Lemma disk_partitions_exact all fs es :
+  forallb wf_fs fs = true -> forallb wf_ment es = true -> forallb dev_ok es = true ->
+  forallb short_line es = true -> forallb plain_dev es = true ->
+  disk_partitions all (k_filesystems fs) (k_mounts es) = Val (spec_partitions all fs es).
+Proof. intros. apply disk_partitions_gen_exact; auto. Qed.
+
+Definition fs_sample : list kfs :=
+  [ {| fs_nodev := true; fs_name := bs "proc" |}; {| fs_nodev := false; fs_name := bs "ext4" |};
+    {| fs_nodev := true; fs_name := bs "zfs" |}; {| fs_nodev := true; fs_name := bs "tmpfs" |} ].
+Example filesystems_example :
+  forallb wf_fs fs_sample = true /\ disk_backed fs_sample (bs "ext4") = true /\ disk_backed fs_sample (bs "zfs") = true
+  /\ disk_backed fs_sample (bs "tmpfs") = false.
+Proof. vm_compute. auto. Qed.
+
+(* observation (outside the property's quantifier: no kernel filesystem is named like this): a type whose
+   name starts with "nodev" and that requires a device makes the /proc/filesystems loop raise IndexError *)
+Lemma filesystems_nodev_name_observation :
+  read_fstypes (k_filesystems [ {| fs_nodev := false; fs_name := bs "nodevfs" |} ]) = Exc IndexError.
+Proof. vm_compute. reflexivity. Qed.
+
+(* ================================================================ the 4095-byte boundary *)
+(* above the boundary getmntent parses the first 4095 bytes of the line and forgets the rest *)
+Lemma mnt_line_long line : (4095 < length line)%nat -> mnt_line line = mnt_parse (firstn 4095 line).
+Proof.
+  intros H. unfold mnt_line, mnt_buffer, MNT_BUFSIZ. change (4096 - 1)%nat with 4095%nat.
+  destruct (Nat.ltb_spec 4095 (length line)); [reflexivity|lia].
+Qed.
+
+Lemma strsep_clean_end t : clean t = true -> strsep t = (t, None).
+Proof.
+  unfold clean. induction t as [|c t IH]; intros H; [reflexivity|].
+  cbn [forallb] in H. apply andb_true_iff in H as [Hc Ht]. apply cleanb_parts in Hc as [Hb _].
+  cbn [strsep]. now rewrite Hb, IH.
+Qed.
+
+Lemma clean_firstn k t : clean t = true -> clean (firstn k t) = true.
+Proof.
+  unfold clean. revert t. induction k as [|k IH]; intros [|c t] H; cbn [firstn forallb]; auto.
+  cbn [forallb] in H. apply andb_true_iff in H as [Hc Ht]. now rewrite Hc, IH.
+Qed.
+
+(* the cut falls inside the mount point: device intact, mount point cut, type and options empty *)
+Lemma mnt_line_cut_in_dir e :
+  wf_ment e = true -> dev_ok e = true ->
+  (length (mangle (m_dev e)) + 2 <= 4095 <= length (mangle (m_dev e)) + 1 + length (mangle (m_dir e)))%nat ->
+  mnt_line (k_mount_line e) =
+    Some {| m_dev := m_dev e;
+            m_dir := decode_name (firstn (4095 - length (mangle (m_dev e)) - 1) (mangle (m_dir e)));
+            m_type := []; m_opts := [] |}.
+Proof.
+  intros Hwf Hok Hlen. destruct (dev_ok_spec e Hwf Hok) as [Hdev [Hnh Hp]].
+  unfold wf_ment in Hwf. repeat (apply andb_true_iff in Hwf as [Hwf ?]).
+  remember (mangle (m_dev e)) as A eqn:EA. remember (mangle (m_dir e)) as B eqn:EB.
+  assert (Hline : k_mount_line e = A ++ 32 :: B ++ (32 :: mangle (m_type e) ++ 32 :: mangle (m_opts e) ++ bs " 0 0" ++ [10])).
+  { unfold k_mount_line. rewrite mangle_dev_nohash by assumption. now rewrite <- EA, <- EB. }
+  rewrite mnt_line_long.
+  2:{ rewrite Hline, app_length. cbn [length]. rewrite app_length. cbn [length]. lia. }
+  rewrite Hline.
+  assert (Hcut : firstn 4095 (A ++ 32 :: B ++ (32 :: mangle (m_type e) ++ 32 :: mangle (m_opts e) ++ bs " 0 0" ++ [10]))
+                 = A ++ 32 :: firstn (4095 - length A - 1) B).
+  { rewrite firstn_app. assert (HA : (length A <= 4095)%nat) by lia. rewrite (firstn_all2 A HA). f_equal.
+    assert (E1 : (4095 - length A = S (4095 - length A - 1))%nat) by lia. rewrite E1 at 1. cbn [firstn]. f_equal.
+    rewrite firstn_app.
+    assert (E2 : (4095 - length A - 1 - length B = 0)%nat) by lia. rewrite E2.
+    cbn [firstn]. now rewrite app_nil_r. }
+  rewrite Hcut. set (B' := firstn (4095 - length A - 1) B).
+  assert (HcB : clean B = true) by (rewrite EB; apply clean_mangle, field_ok_nonul; assumption).
+  assert (HcB' : clean B' = true) by (apply clean_firstn, HcB).
+  destruct (mangle_head (m_dir e)) as [c2 [r2 [E2 [B2 _]]]]; [assumption|]. rewrite <- EB in E2.
+  assert (EB' : exists r', B' = c2 :: r').
+  { unfold B'. rewrite E2. replace (4095 - length A - 1)%nat with (S (4095 - length A - 2)) by lia. cbn [firstn]. eauto. }
+  destruct EB' as [r' EB'].
+  unfold mnt_parse.
+  destruct (mangle_head (m_dev e) Hdev) as [c1 [r1 [E1 [B1 P1]]]]. rewrite <- EA in E1.
+  assert (Hskip : forall x, skip_blank (A ++ x) = A ++ x).
+  { intros x. rewrite E1. cbn [app]. now apply skip_blank_head. }
+  rewrite Hskip. rewrite E1 at 1. cbn [app].
+  destruct (Z.eqb_spec c1 35) as [->|_]; [rewrite P1 in Hp by reflexivity; discriminate|].
+  rewrite EB'. rewrite EA. rewrite next_field_step by assumption. cbv beta iota.
+  rewrite <- EB'. unfold next_field at 1. rewrite strsep_clean_end by exact HcB'. cbv beta iota.
+  cbn [next_field]. reflexivity.
+Qed.
+
+(* ================================================================ the device field: two known findings *)
+Definition ment_hash : ment :=
+  {| m_dev := bs "#dev"; m_dir := bs "/mnt"; m_type := bs "tmpfs"; m_opts := bs "rw" |}.
+Definition ment_nodevname : ment :=
+  {| m_dev := []; m_dir := bs "/mnt"; m_type := bs "tmpfs"; m_opts := bs "rw" |}.
+
+(* known finding: the kernel prints '#' in a device name as \043, which glibc's decode_name leaves alone *)
+Lemma mounts_hash_refuted : exists es,
+  forallb wf_ment es = true /\ forallb plain_dev es = true /\ forallb short_line es = true /\ forallb utf8_ok es = true /\
+  exists rows, disk_partitions true [] (k_mounts es) = Val rows /\ map m_dev rows = [bs "\043dev"] /\ map m_dev es = [bs "#dev"].
+Proof.
+  exists [ment_hash]. repeat split; try (vm_compute; reflexivity).
+  eexists. repeat split; vm_compute; reflexivity.
+Qed.
+
+(* known finding: an empty device name makes the line start with a blank; getmntent shifts all fields *)
+Lemma mounts_emptydev_refuted : exists es,
+  forallb wf_ment es = true /\ forallb plain_dev es = true /\ forallb short_line es = true /\ forallb utf8_ok es = true /\
+  map m_dev es = [[]] /\
+  disk_partitions true [] (k_mounts es)
+    = Val [ {| m_dev := bs "/mnt"; m_dir := bs "tmpfs"; m_type := bs "rw"; m_opts := bs "0" |} ].
+Proof. exists [ment_nodevname]. repeat split; vm_compute; reflexivity. Qed.
+
+(* the boundary, concretely (line = n + 24 bytes, the four fields = n + 19 bytes): a line of exactly 4095 bytes
+   is exact; up to 4100 bytes the cut falls behind the options and the answer is still exact; from the first
+   byte of a field beyond 4095 on, the entry comes back cut *)
+Definition ment_len (n : nat) : ment :=
+  {| m_dev := bs "/dev/sda1"; m_dir := 47 :: repeat 120 n; m_type := bs "ext4"; m_opts := bs "rw" |}.
+Lemma boundary_4095 :
+  length (k_mount_line (ment_len 4071)) = 4095%nat /\ mnt_line (k_mount_line (ment_len 4071)) = Some (ment_len 4071) /\
+  length (k_mount_line (ment_len 4076)) = 4100%nat /\ mnt_line (k_mount_line (ment_len 4076)) = Some (ment_len 4076) /\
+  length (k_mount_line (ment_len 4077)) = 4101%nat /\
+  mnt_line (k_mount_line (ment_len 4077))
+    = Some {| m_dev := bs "/dev/sda1"; m_dir := 47 :: repeat 120 4077; m_type := bs "ext4"; m_opts := bs "r" |}.
+Proof. repeat split; vm_compute; reflexivity. Qed.
